@@ -134,6 +134,17 @@ class MapsU(SymObj):
         I.require(self.t.has(k), "maps_key_present", exc="KeyError")
         return TMU(self.t, k)
 
+    def py_getattr(self, I, name):
+        if name == "get":  # maps.get(key, default=None)
+
+            def get(I, key, default=None):
+                if I.branch(self.t.has(self._key(I, key))):
+                    return TMU(self.t, self._key(I, key))
+                return default
+
+            return Builtin("get", get)
+        raise OutOfSubset(f"maps.{name}")
+
 
 class TableReg(SymObj):
     def __init__(self, I, w):
